@@ -1,11 +1,11 @@
 CONSTANTS
   NV = 3
-  MaxE = 4
+  MaxE = 3
   Lens = {1, 2}
   Spds = {1}
   Heads = {0}
   HVals = {0, 2000}
-  Dirs = {"fwd"}
+  Dirs = {"fwd", "rev"}
   TieVals = {FALSE}
   MaxBad = 2
   Limits <- NoLimits
